@@ -576,8 +576,15 @@ def _fetch_path(kind, nscript):
     try:
         tx = txm.TxFetcher.fetch(tx_id, network="mainnet", fresh=True)
     except (RuntimeError, ValueError, IOError, IndexError, KeyError) as ex:
-        check(True, "rejected")
-        return "rejected:" + type(ex).__name__
+        # history: a rejected response must not be served by a later (cached) fetch of the same id
+        try:
+            again = txm.TxFetcher.fetch(tx_id, network="mainnet", fresh=False)
+        except (RuntimeError, ValueError, IOError, IndexError, KeyError):
+            check(True, "rejected")
+            return "rejected:" + type(ex).__name__
+        check(again.id() == tx_id, "a response rejected by the integrity check is returned by the next (cached) fetch of that id",
+              witness=lambda env: dict(wit(env), history="rejected-then-cached"))
+        return "rejected-then-served"
     got = tx.id()
     check(got == tx_id, "the transaction returned by the fetcher does not hash to the requested id", witness=wit)
     # cache reuse: the second call returns the same object
@@ -612,6 +619,19 @@ def replay_fetch(w):
     txm.urlopen = lambda req: R()
     txm.TxFetcher.cache = {}
     try:
+        if w.get("history") == "rejected-then-cached":
+            # ask for an id the response does NOT hash to: first call must raise, the second (cached) call must not serve it
+            wrong = "00" * 31 + "01"
+            try:
+                txm.TxFetcher.fetch(wrong, fresh=True)
+                return {"violated": True, "observed": "a response for another id was accepted"}
+            except Exception:
+                pass
+            try:
+                again = txm.TxFetcher.fetch(wrong, fresh=False)
+            except Exception as ex:
+                return {"violated": False, "observed": f"second fetch raised {ex!r}"}
+            return {"violated": again.id() != wrong, "observed": f"second fetch of {wrong} returned an object hashing to {again.id()}"}
         try:
             tx = txm.TxFetcher.fetch(tx_id, fresh=True)
         except Exception as ex:
